@@ -545,6 +545,23 @@ func (c *compiler) evalIdentifier(node *ast.Identifier) (interface{}, error) {
 	}
 }
 
+// safeCall calls fn; a panic inside it (a method promoted through a nil embedded
+// pointer, a helper that dereferences nil) is the call's error, as in
+// text/template, instead of tearing down the render.
+func safeCall(fn reflect.Value, args []reflect.Value) (res []reflect.Value, err error) {
+	defer func() {
+		if r := recover(); r != nil {
+			if e, ok := r.(error); ok {
+				err = e
+			} else {
+				err = fmt.Errorf("%v", r)
+			}
+		}
+	}()
+
+	return fn.Call(args), nil
+}
+
 // fieldByName is rv.FieldByName(name), except that a field promoted through an
 // embedded pointer that is nil is an error instead of a panic.
 func fieldByName(rv reflect.Value, name string) (reflect.Value, error) {
@@ -975,7 +992,11 @@ func (c *compiler) evalCallExpression(node *ast.CallExpression) (interface{}, er
 		}
 	}
 
-	res := rv.Call(args)
+	res, err := safeCall(rv, args)
+	if err != nil {
+		return nil, fmt.Errorf("could not call %s function: %w", node.Function, err)
+	}
+
 	if len(res) > 0 {
 		last := res[len(res)-1]
 		isNil := false
